@@ -5,6 +5,7 @@ package webrtc
 import (
 	"context"
 
+	"github.com/aperturerobotics/bifrost/signaling"
 	"github.com/pion/datachannel"
 )
 
@@ -16,4 +17,15 @@ func VerifIsOfferer(a, b string) bool { return isOfferer(a, b) }
 func VerifExecuteLink(ctx context.Context, w *WebRTC, peerIDStr string, dc datachannel.ReadWriteCloser) (bool, func() error) {
 	_, tkr := w.newSessionTracker(peerIDStr)
 	return tkr.offerer, func() error { return tkr.executeLink(ctx, dc) }
+}
+
+// VerifDataChannelID is the label of the negotiated data channel.
+func VerifDataChannelID() string { return dataChannelID }
+
+// VerifRunSignalHandler starts the session trackers and runs the incoming
+// signal handler of the transport over the given signaling session, as the
+// HandleSignalPeer resolver does.
+func VerifRunSignalHandler(ctx context.Context, w *WebRTC, sess signaling.SignalPeerSession) error {
+	w.sessionTrackers.SetContext(ctx, true)
+	return (&handleSignalPeerResolver{t: w, sess: sess}).Resolve(ctx, nil)
 }
